@@ -1267,3 +1267,8 @@ Definition check_data_case (c : dcase) : bool :=
       p3d_close (d_p3d O (canon O d)) (d_p3d O d)
   | _, _ => false
   end.
+
+(* a history: several save / load steps run one after the other in one process (directory paths reused).
+   The model of the loader is a function of the tree alone, so every step is checked on its own: any
+   dependence of the implementation on earlier calls shows up as a disagreement on some step. *)
+Definition check_history (steps : list dcase) : bool := forallb check_data_case steps.
